@@ -88,6 +88,40 @@ func judgeC16(rep *core.Report, fi *FuncInfo, recs []*execmon.Rec) {
 			report(&core.Violation{Property: "C16", Monitor: "exec", Symptom: "slice-aliasing-observed", Features: map[string]string{"dst_kind": scen.KindOf(pr.DstT), "src_kind": scen.KindOf(pr.SrcT)}, Case: c.S.ID,
 				Detail: fmt.Sprintf("%s(%s): %s", r.Fn, r.Val, a)}, r)
 		}
+		// plan-independent: a name-matched slice FIELD (not a member of a struct that is itself copied as
+		// a whole) whose backing array is a backing array of the source operand
+		for _, a := range r.TreeAlias {
+			dp, sp := a[:strings.Index(a, "|")], a[strings.Index(a, "|")+1:]
+			var pr *scen.Probe
+			for i := range fi.Method.Probes {
+				if q := &fi.Method.Probes[i]; q.Dst == dp && isSliceTypeExpr(q.DstT) {
+					pr = q
+				}
+			}
+			if pr == nil {
+				continue
+			}
+			switch pr.Mech {
+			case "same", "diff", "slice", "case", "getter", "unexported":
+			default:
+				continue
+			}
+			if strings.Contains(dp, ".") {
+				whole := false
+				for i := range fi.Plan.Items {
+					it := &fi.Plan.Items[i]
+					if it.Kind == "assign" && it.Root == fi.DstVar && strings.HasPrefix(dp, it.PathStr()+".") {
+						whole = true // an enclosing struct field is copied as a whole: its members are not "slice fields copied by name match"
+					}
+				}
+				if whole {
+					continue
+				}
+			}
+			report(&core.Violation{Property: "C16", Monitor: "exec", Symptom: "slice-shares-backing-array-with-source", Features: map[string]string{"dst_kind": scen.KindOf(pr.DstT), "src_kind": scen.KindOf(pr.SrcT), "nested": fmt.Sprint(strings.Contains(dp, "."))}, Case: c.S.ID,
+				Detail: fmt.Sprintf("%s(%s): destination slice %s has the same backing array as source slice %s after the call", r.Fn, r.Val, dp, sp)}, r)
+		}
+		rep.Count("destination_slices_seen_sharing_a_source_backing_array_incl_permitted", len(r.TreeAlias))
 		for _, mm := range r.Mismatches {
 			fp := fieldPathOfDump(mm.Path)
 			var pr *scen.Probe
